@@ -38,7 +38,8 @@ import preplib as P
 THEOREMS = ["C15_selects", "C15_selects_nontrivia", "C15_selects_text", "C15_selects_lexed", "C15_disabled_invisible",
             "C15_disabled_covered", "C15_unterminated", "C15_unterminated_lexed", "C15_missing_name", "C15_missing_name_lexed",
             "C15_parse_leaves_any_program", "C15_disabled_no_nodes", "C15_errors_any_program", "C15_disabled_no_errors",
-            "C15_errors_skip_first", "C15_errors_grammar", "C15_disabled_no_errors_grammar"]
+            "C15_errors_skip_first", "C15_errors_grammar", "C15_disabled_no_errors_grammar",
+            "C15_model_is_source", "C15_prep_next_is_source"]
 TRUSTED = [
     "Coq 8.16.1 kernel (coqc); Print Assumptions of every theorem is checked against the allow-list (none)",
     "statement of the specification coq/model/PrepSpec.v (items, items_ok, render_items, select, partial arrangements, missing_name), "
@@ -211,6 +212,15 @@ CORPUS = [
     ("#define\nclass A;", "name-keyword"), ("#ifndef \"A\"\n#endif", "name-string"),
     ("#ifdef A\n\"unterminated\n!nosuch 0b $ ..\n#endif\nclass C;", "garbage-disabled"),
     ("class A; // #ifdef X\n/* #else */ def \"#endif\";", "directive-looking-trivia"),
+    # a lexical error inside a DISABLED region, later a preprocessor error (C15-mut4: the parked lexer message must
+    # not surface as an extra diagnostic)
+    ("#ifdef X\n@\n#endif\ndef v;\n#ifdef", "lexerr-disabled-then-missing-name"),
+    ("#ifdef X\n!nosuchop\n#endif\ndef v;\n#define", "lexerr-disabled-then-missing-name"),
+    ("#ifdef X\n..\n#endif\n#ifndef Y\nclass A;", "lexerr-disabled-then-unterminated"),
+    ("#ifndef X\ndef a;\n#else\n\"abc\n#endif\n#ifdef ;", "lexerr-disabled-then-missing-name"),
+    ("#ifdef X\n[{ never closed\n", "lexerr-disabled-then-unterminated"),
+    ("#ifdef X\n@\n#else\n#ifdef Y\n$\n", "lexerr-disabled-then-unterminated"),
+    ("#ifdef X\ndef hidden;\n#endif\ndef visible;\n#ifdef\n", "clean-disabled-then-missing-name"),
 ]
 
 
@@ -252,7 +262,7 @@ def run(ctx):
         ctx.cov["proof_step_skipped_DEVELOPMENT_ONLY"] = True
     else:
         fails = vlib.proof_step(ctx, "TG.Props.C15", THEOREMS, ["props/C15.vo"], TRUSTED,
-                                translators=["t_tokens", "t_lextables", "t_unicode"])
+                                translators=["t_tokens", "t_lextables", "t_unicode", "t_lexer", "t_prep"])
         cone = P.coq_cone("props/C15.v")
         ctx.cov["coq_cone"] = sorted(cone)
         fails = [f for f in fails if not (f.get("kind") == "forbidden-declaration"
